@@ -290,6 +290,22 @@ fn run_pass(call: &Call, funcs: &Tables, vals: Option<&calls::Vals>, pass: &Pass
     let (a2, r2) = alloc::disarm();
     let clock_reads = CLOCK_READS.with(|c| c.get());
     match r {
+        // the property's last clause: a field the type does not carry is reported as an error
+        Ok((o, a, refused)) if o == "ok" && calls::must_be_refused(call).is_some() => PassResult {
+            outcome: "inapplicable-field-not-refused",
+            panicked: true,
+            panic_msg: format!(
+                "{} no panic, but the call returned Ok: the picture contains the element {}, which this type does not carry, and the property demands that formatting reports an inapplicable field as an error",
+                NOT_REFUSED,
+                calls::must_be_refused(call).unwrap_or("?")
+            ),
+            writes: sink.writes,
+            bytes: sink.bytes,
+            allocs: a,
+            refused,
+            clock_reads,
+            sink_fired: sink.fired,
+        },
         Ok((o, a, refused)) => PassResult {
             outcome: o,
             panicked: false,
@@ -594,7 +610,7 @@ fn worker(build: &str, seed: u64, n_calls: u64, index: u64, of: u64, trace: bool
                 if r.panicked {
                     if st.violations.len() < 5 {
                         st.violations.push(json!({
-                            "index": idx, "pass_no": pi, "build": build, "class": "panic",
+                            "index": idx, "pass_no": pi, "build": build, "class": if r.panic_msg.starts_with(NOT_REFUSED) { "not-refused" } else { "panic" },
                             "panic": r.panic_msg, "call": call.to_json(), "pass": pass.to_json(), "describe": call.describe(),
                         }));
                     }
@@ -873,8 +889,13 @@ fn first_use_in_fresh_process(build: &str, ty: u64, human: bool, k: i64, persist
 
 const TYPE_NAMES: [&str; 6] = ["Date", "Timestamp", "Time", "IntervalYM", "IntervalDT", "OracleDate"];
 
+/// Marks the one violation that is not a panic or a crash (see `run_pass`).
+const NOT_REFUSED: &str = "[not-refused]";
+
 fn class_of(result: &str) -> &'static str {
-    if result.starts_with("panic") {
+    if result.starts_with("panic") && result.contains(NOT_REFUSED) {
+        "not-refused"
+    } else if result.starts_with("panic") {
         "panic"
     } else if result.starts_with("crash") {
         "crash"
